@@ -862,6 +862,7 @@ def signature(c, real):
 
 class C03(PropertyCheck):
     pid = "C03"
+    claimed = True
     props_modules = ["KDVerif.Props.C03"]
     extra_build = ["KDVerif.Driver.Selection"]
     driver_main = "mains/Selection.lean"
